@@ -180,6 +180,9 @@ pub struct LineOut {
 pub struct Fatal {
     pub tag: String,
     pub detail: String,
+    /// class of the session history at the moment of the failure ("" = ordinary): known findings
+    /// are tied to it, so that the same crash site reached by another kind of history is reported
+    pub history: &'static str,
 }
 
 #[derive(Clone, Debug)]
@@ -247,6 +250,13 @@ pub struct World {
     pub true_col: usize,
     pub disk: BTreeMap<String, Vec<String>>,
     pub snaps: Vec<Option<(Listing, String)>>,
+    /// since the last line that resets the value stack (RUN, NEW, CLEAR, LOAD, an edit): a runtime
+    /// error was reported / a direct line with FOR, GOSUB or WHILE was typed
+    error_since_reset: bool,
+    direct_frames_since_reset: bool,
+    /// CONT was typed in such a history: it resumes on a value stack that holds the residue of a
+    /// failed statement or frames of a direct statement (the history class of two C03 findings)
+    pub cont_on_foreign_stack: bool,
     /// global API call sequence number
     pub seq: u64,
     pub log_hash: u64,
@@ -325,6 +335,9 @@ impl World {
             true_col: 0,
             disk: BTreeMap::new(),
             snaps: vec![],
+            error_since_reset: false,
+            direct_frames_since_reset: false,
+            cont_on_foreign_stack: false,
             seq: 0,
             log_hash: 0xcbf2_9ce4_8422_2325,
             log: if keep_log { Some(vec![]) } else { None },
@@ -368,6 +381,7 @@ impl World {
             self.fatal = Some(Fatal {
                 tag: tag.to_string(),
                 detail,
+                history: if self.cont_on_foreign_stack { "cont-on-foreign-stack" } else { "" },
             });
         }
     }
@@ -539,10 +553,33 @@ impl World {
         }
         self.events.push(Ev::Entered(text.to_string()));
         self.true_col = 0;
+        self.classify_history(text);
         self.enter_raw("line", text);
         self.drain(&mut out, io, false);
         out.ev_end = self.events.len();
         out
+    }
+
+    /// History class bookkeeping for the known findings (see `Fatal::history`).
+    fn classify_history(&mut self, text: &str) {
+        let t = text.trim_start().to_ascii_uppercase();
+        let resets = t.starts_with(|c: char| c.is_ascii_digit())
+            || t.starts_with("RUN")
+            || t.starts_with("NEW")
+            || t.starts_with("CLEAR")
+            || t.starts_with("LOAD");
+        if resets {
+            self.error_since_reset = false;
+            self.direct_frames_since_reset = false;
+            self.cont_on_foreign_stack = false;
+            return;
+        }
+        if t.contains("FOR") || t.contains("GOSUB") || t.contains("WHILE") || t.contains("GO SUB") {
+            self.direct_frames_since_reset = true;
+        }
+        if t.contains("CONT") && (self.error_since_reset || self.direct_frames_since_reset) {
+            self.cont_on_foreign_stack = true;
+        }
     }
 
     /// Load a file the way the UI services `Event::Load`/`Event::Run`.
@@ -724,6 +761,9 @@ impl World {
                         }
                     }
                     self.true_col = 0;
+                    if e.iter().any(|x| !x.to_string().starts_with("?BREAK")) {
+                        self.error_since_reset = true;
+                    }
                     self.events.push(Ev::Errors(err_infos(&e)));
                 }
                 Event::List((s, cols)) => {
